@@ -79,6 +79,8 @@ func (e *Ev) MarshalJSON() ([]byte, error) {
 	return append(buf, '}'), nil
 }
 
+var flushEach = os.Getenv("VERIF_FLUSH") == "1"
+
 // Trace is a concurrent-safe ndjson writer
 type Trace struct {
 	mu sync.Mutex
@@ -104,6 +106,9 @@ func (t *Trace) Emit(e *Ev) {
 	t.w.Write(b)
 	t.w.WriteByte('\n')
 	t.N++
+	if flushEach {
+		t.w.Flush()
+	}
 	t.mu.Unlock()
 }
 
